@@ -10,11 +10,13 @@ package ircomp
 // an index that does not fit, for value registers and for cell registers alike:
 // both pools stay at 255 entries at most, and running out is a compilation
 // panic (which CompileQueue turns into a compile error).
+//@ macro raOK(a) = a != nil && len(a.regs) <= 255 && len(a.cells) <= 255
+
 //@ func allocReg
 //@   prop C04
 //@   arith int
 //@   conversions lossless
-//@   requires len(regs) <= 255 && forall(j, 0, len(regs), regs[j] >= 0)
+//@   requires len(regs) <= 255
 //@   modifies all(regs)
 //@   exits any when len(regs) == 255 && forall(j, 0, len(regs), regs[j] != 0)
 //@   ensures len(result0) <= 255 && len(result0) >= len(regs) && result1 < len(result0) && result0[result1] == 0
@@ -26,10 +28,19 @@ package ircomp
 //@   arith int
 //@   norte
 //@   nocover
-//@   requires a != nil && len(a.regs) <= 255 && len(a.cells) <= 255 && forall(j, 0, len(a.regs), a.regs[j] >= 0) && forall(j, 0, len(a.cells), a.cells[j] >= 0)
+//@   requires raOK(a)
 //@   modifies everything()
 //@   exits any
-//@   ensures len(a.regs) <= 255 && len(a.cells) <= 255
+//@   ensures raOK(a)
+
+// takeRegister selects one of the two pools through an interior pointer chosen
+// at a join, which is outside the verifier's subset; callers see the weakest
+// contract (anything reachable may change, it may panic), which claims nothing.
+//@ func (*regAllocator).takeRegister
+//@   prop C04
+//@   trusted
+//@   modifies everything()
+//@   exits any
 
 // Remaining non-compilation panics in the package are consistency checks on
 // data produced by the compiler itself (an operator the parser cannot
@@ -48,3 +59,54 @@ package ircomp
 //@   prop C04
 //@   effectsonly
 //@   effects internal-assertion 1
+
+// Bounded opcode fields: each compile function checks the range and raises a
+// compilation panic before calling the (partial) encoder of package code.
+//@ func kIndex
+//@   prop C04
+//@   arith int
+//@   modifies nothing
+//@   exits any when i < 0 || i > 65535
+//@   ensures result0 == i
+
+//@ func (instrCompiler).ProcessEtcLookupInstr
+//@   prop C04
+//@   arith int
+//@   requires raOK(ic.regAllocator)
+//@   norte
+//@   nocover
+//@   modifies everything()
+//@   exits any
+
+//@ func (instrCompiler).ProcessFillTableInstr
+//@   prop C04
+//@   arith int
+//@   requires raOK(ic.regAllocator)
+//@   norte
+//@   nocover
+//@   modifies everything()
+//@   exits any
+
+//@ func (instrCompiler).ProcessTruncateCloseStackInstr
+//@   prop C04
+//@   arith int
+//@   requires raOK(ic.regAllocator)
+//@   norte
+//@   nocover
+//@   conversions lossless
+//@   modifies everything()
+//@   exits any
+
+// The program counter (LuaCont.pc) and jump offsets are int16: a compiled
+// function never spans more than 32767 opcodes.  Labels are local to the
+// function (Builder.Offset resets them), so every jump distance fits as well.
+//@ func (*ConstantCompiler).ProcessCode
+//@   prop C04
+//@   arith int
+//@   norte
+//@   nocover
+//@   modifies everything()
+//@   exits any
+//@   loop 1: invariant true
+//@   loop 2: invariant true
+//@   assert_before_call addCompiled: end - start <= 32767
